@@ -20,6 +20,8 @@
 (*              the pruned copy: a worker registered (constructor / restart() in another    *)
 (*              thread) inside that window is overwritten by the stale copy - alive, never  *)
 (*              yielded again, not closed by autoclose.  TLC must reject it (C19_Exact).    *)
+(*   AutoFinally FALSE: the clean-up of autoclose_active_children is not in a finally clause: *)
+(*              a block that is left through an exception closes nobody                     *)
 (*   held[w]    scenario: does the caller keep the object the constructor returned?  The    *)
 (*              registry, not the caller, owns the reference: nothing may depend on held    *)
 (*              (a fire-and-forget worker inside an autoclose block is the normal use).     *)
@@ -28,7 +30,7 @@
 (*              child keeps running - not yielded, not closed by autoclose.  TLC rejects it. *)
 EXTENDS Naturals, Sequences, FiniteSets, TLC, RegistryProps
 
-CONSTANTS N, Threads, MaxSteps, FixPrune, FixRestart, PruneOutsideLock, WeakRegistry, HeldSet, Hist, Atomic, Ops
+CONSTANTS N, Threads, MaxSteps, FixPrune, FixRestart, PruneOutsideLock, WeakRegistry, HeldSet, AutoFinally, Hist, Atomic, Ops
 
 VARIABLES held, st, pers, reg, lock, tpc, mayv, mustv, diedc, snap, calls, autos, ncreated, nsteps, h
 vars == <<held, st, pers, reg, lock, tpc, mayv, mustv, diedc, snap, calls, autos, ncreated, nsteps, h>>
@@ -126,18 +128,22 @@ Return(t) == /\ tpc[t] = "yield"
              /\ UNCHANGED <<held, st, pers, reg, lock, mayv, mustv, diedc, snap, autos, ncreated, nsteps, h>>
 
 \* leaving an autoclose block: every yielded worker is closed / waited for / terminated
-Auto == /\ "auto" \in Ops /\ Budget /\ Idle /\ lock = 0
-        /\ reg' = Pruned
-        /\ st' = [w \in W |-> IF w \in Range(Pruned) /\ st[w] = "live" THEN "dead" ELSE st[w]]
-        /\ autos' = Append(autos, [after |-> SeqOf({w \in Live : w \notin Range(Pruned)})])
-        /\ Log(<<"auto", 0, "-", "-">>)
+\* exc: the block is left through an exception raised inside it
+Auto(exc) ==
+        /\ "auto" \in Ops /\ Budget /\ Idle /\ lock = 0
+        /\ IF exc /\ ~AutoFinally
+           THEN /\ autos' = Append(autos, [after |-> SeqOf(Live)]) /\ UNCHANGED <<reg, st>>
+           ELSE /\ reg' = Pruned
+                /\ st' = [w \in W |-> IF w \in Range(Pruned) /\ st[w] = "live" THEN "dead" ELSE st[w]]
+                /\ autos' = Append(autos, [after |-> SeqOf({w \in Live : w \notin Range(Pruned)})])
+        /\ Log(<<IF exc THEN "autoexc" ELSE "auto", 0, "-", "-">>)
         /\ UNCHANGED <<held, pers, lock, tpc, mayv, mustv, diedc, snap, calls, ncreated>>
 
 Next == \/ \E run \in BOOLEAN, p \in BOOLEAN, hd \in HeldSet : Create(run, p, hd)
         \/ \E w \in W : Die(w) \/ Restart(w)
         \/ \E t \in Threads : AcAtomic(t) \/ Begin(t) \/ Lock(t) \/ PruneCopy(t) \/ Release(t) \/ Return(t)
         \/ \E t \in Threads : CopyOnly(t) \/ Filter(t) \/ Lock2(t) \/ Store(t)
-        \/ Auto
+        \/ Auto(FALSE) \/ Auto(TRUE)
 Spec == Init /\ [][Next]_vars /\ WF_vars(\E t \in Threads : Lock(t) \/ PruneCopy(t) \/ Release(t) \/ Return(t) \/ CopyOnly(t) \/ Filter(t) \/ Lock2(t) \/ Store(t))
 
 Rec == [scn |-> [n |-> ncreated], obs |-> [calls |-> calls, autos |-> autos]]
